@@ -1,14 +1,23 @@
 /-
 C10 — parsing delivers exactly what was written, regardless of layout.
 
-Part proved here (token level): for every value built from integers, decimals, quoted strings, bare identifiers and lists of
-any nesting, *whatever lines the tokens are on and with or without a trailing comma*, the grammar reads the token sequence back
-as exactly that value, with every node carrying the line of its first token (`expression_renders`).  The character level for the
-hardest token class - quoted strings with arbitrary content - is `C15.quote_roundtrip`.  The remaining glue (identifier and number
-scanning, layout between tokens, command/argument level) is not yet proved; until then the property as a whole is decided by the
-correspondence of this executable parser with the real one and by the round-trip oracle (registered as translation validation).
+Proved here, in two layers that compose to `parse_text`:
+
+* characters → tokens (`Gap`, `Spells`, `Text`, `lexS_text`; lemmas in Lemmas/Lex): layout (blanks, tabs, line feeds, CR LF, comments) produces
+  no token and advances the line counter by exactly its line breaks; an identifier, an integer, a decimal, a quoted string of any content
+  (C15.quote_roundtrip) and each punctuation mark is read as that one token on the line it starts on; the lexer's recursion bound never
+  loses a token (`Lex.lexAll_fuel`).
+* tokens → program (`RVal`, `RElems`, `RArg`, `RArgs`, `RCmd`, `RProg`, `program_renders`): any token sequence that renders a program -
+  commands, named arguments, integers, decimals, quoted strings, bare identifiers, lists nested to any depth, trailing commas or not,
+  tokens on any lines - is read back as exactly that program, each node carrying the line of its first token.
+
+`parse_text`: a text whose tokens render program `cs` parses to `cs` (version 3).  Not covered by these theorems (decided by the correspondence
+of this executable parser with the real one and by the round-trip oracle on the implementation): tuples (`[key: value]`), unquoted strings that
+are not identifiers, decimals in exponent form, quoted strings that span lines, the EEMS 2.0 command form, and the rejection of malformed text.
 -/
 import MPilot.Model.Grammar
+import MPilot.Lemmas.Lex
+import MPilot.Props.C15
 import Mathlib.Tactic.Common
 
 namespace MPilot.C10
@@ -386,5 +395,104 @@ commas, lists nested to any depth - is read back as exactly that program, each n
 theorem program_renders {ts : List Tok} {cs : List CNode} (h : RProg ts cs) : parseToks ts = .ok ⟨cs, 3⟩ := by
   have := parse_go_renders h (ts.length + 1) [] (by omega)
   simpa [parseToks] using this
+
+/-! ## from characters to tokens
+
+A command file is layout (blanks, tabs, line feeds, CR LF pairs, comments) and token spellings in alternation.  `Text cs line ts` says that
+the characters `cs`, read from line `line` on, are such an alternation whose tokens - with the lines they really start on - are `ts`. -/
+
+open MPilot.Lex
+
+/-- layout and the number of line breaks in it -/
+inductive Gap : List Char → Nat → Prop
+  | nil : Gap [] 0
+  | blank (c : Char) (g : List Char) (n : Nat) : c = ' ' ∨ c = '\t' → Gap g n → Gap (c :: g) n
+  | lf (g : List Char) (n : Nat) : Gap g n → Gap ('\n' :: g) (n + 1)
+  | crlf (g : List Char) (n : Nat) : Gap g n → Gap ('\r' :: '\n' :: g) (n + 1)
+  | comment (body g : List Char) (n : Nat) : (∀ c ∈ body, c ≠ '\n') → Gap g n → Gap ('#' :: (body ++ '\n' :: g)) (n + 1)
+
+/-- layout produces no token and advances the line counter by the line breaks it contains -/
+theorem lexS_gap {g : List Char} {n : Nat} (h : Gap g n) (rest : List Char) (line : Nat) :
+    lexS (g ++ rest) line = lexS rest (line + n) := by
+  induction h generalizing line with
+  | nil => simp
+  | blank c g n hc _ ih => rw [List.cons_append, lexS_blank c _ line hc]; exact ih line
+  | lf g n _ ih => rw [List.cons_append, lexS_lf, ih]; congr 1; omega
+  | crlf g n _ ih => rw [List.cons_append, List.cons_append, lexS_crlf, ih]; congr 1; omega
+  | comment body g n hb _ ih =>
+    rw [List.cons_append, List.append_assoc, List.cons_append, lexS_comment body _ line hb, lexS_lf, ih]; congr 1; omega
+
+/-- `sp` is a spelling of the token `(k, v)`: followed by any text that satisfies `ok`, it is read as that one token, on the line it starts on,
+and reading continues right behind it on the same line -/
+def Spells (sp : List Char) (k : TokKind) (v : TVal) (ok : List Char → Prop) : Prop :=
+  ∀ rest line, ok rest → lexS (sp ++ rest) line = ⟨k, v, line⟩ :: lexS rest line
+
+theorem spells_punct (c : Char) (k : TokKind) (h : punct? c = some k) : Spells [c] k .none (fun _ => True) :=
+  fun rest line _ => lexS_punct c k rest line h
+
+theorem spells_ident (c : Char) (w : List Char) (hc : isIdStart c = true) (hw : ∀ x ∈ w, isIdCont x = true) :
+    Spells (c :: w) .id (.str (String.ofList (c :: w))) (StopsAt isIdCont) :=
+  fun rest line hs => lexS_ident c w rest line hc hw hs
+
+theorem spells_int (neg : Bool) (ds : List Char) (hne : ds ≠ []) (hd : ∀ c ∈ ds, isDig c = true) :
+    Spells (signChars neg ++ ds) .int (.int (if neg then -(digitsVal ds : Int) else (digitsVal ds : Int)))
+      (StopsAt (fun c => isDig c || c == '.')) := by
+  intro rest line hs
+  rw [List.append_assoc]
+  exact lexS_int neg ds rest line hne hd hs
+
+theorem spells_float (neg : Bool) (ip fp : List Char) (hne : ip ≠ []) (hi : ∀ c ∈ ip, isDig c = true) (hf : ∀ c ∈ fp, isDig c = true)
+    (hlen : fp.length ≤ 5000) :
+    Spells (signChars neg ++ (ip ++ '.' :: fp)) .float (floatTokVal neg ip fp) (StopsAt (fun c => isDig c || c == 'e' || c == 'E')) := by
+  intro rest line hs
+  have : signChars neg ++ (ip ++ '.' :: fp) ++ rest = signChars neg ++ (ip ++ '.' :: (fp ++ rest)) := by simp
+  rw [this]
+  exact lexS_float neg ip fp rest line hne hi hf hlen hs
+
+/-- every string, written the way the serializer quotes it, followed by anything -/
+theorem spells_quoted (s : String) : Spells (quoteStr s).toList .string (.str s) (fun _ => True) := by
+  intro rest line _
+  have hq : (quoteStr s).toList = '"' :: (quoteChars s.toList ++ ['"']) := by simp [quoteStr, String.toList_append]
+  have h := C15.quote_roundtrip s rest line
+  rw [C15.quote_no_newlines, Nat.add_zero] at h
+  rw [hq] at h ⊢
+  exact lexS_tok '"' _ line _ _ _ (by decide) h
+
+/-- a command file as characters: layout, a token spelling, layout, ... - with the tokens it denotes and the lines they start on -/
+inductive Text : List Char → Nat → List Tok → Prop
+  | done (g : List Char) (n line : Nat) : Gap g n → Text g line []
+  | tok (g sp tail : List Char) (n line : Nat) (k : TokKind) (v : TVal) (ok : List Char → Prop) (ts : List Tok) :
+      Gap g n → Spells sp k v ok → ok tail → Text tail (line + n) ts → Text (g ++ (sp ++ tail)) line (⟨k, v, line + n⟩ :: ts)
+
+theorem lexS_text {cs : List Char} {line : Nat} {ts : List Tok} (h : Text cs line ts) : lexS cs line = ts := by
+  induction h with
+  | done g n line hg => have := lexS_gap hg [] line; simpa [lexS_nil] using this
+  | tok g sp tail n line k v ok ts hg hsp hok _ ih => rw [lexS_gap hg, hsp tail (line + n) hok, ih]
+
+/-- **C10, characters to program.**  A text made of token spellings (identifiers, integers, decimals, quoted strings of any content,
+punctuation) separated by arbitrary layout - blanks, tabs, line feeds or CR LF, comments - whose tokens render the program `cs`
+(lists nested to any depth, trailing commas or not) parses to exactly `cs`, every node carrying the line it really starts on. -/
+theorem parse_text (chars : List Char) (ts : List Tok) (cs : List CNode) (ht : Text chars 1 ts) (hp : RProg ts cs) :
+    parse (String.ofList chars) = .ok ⟨cs, 3⟩ := by
+  unfold parse
+  rw [lex_eq_lexS]
+  simp only [String.toList_ofList]
+  rw [lexS_text ht]
+  exact program_renders hp
+
+/-- non-vacuity: a concrete file meets the premises of `parse_text` -/
+example : parse (String.ofList ['A', '=', 'B', '(', 'x', '=', '7', ')', '\n']) = .ok ⟨[⟨some "A", "B", [⟨"x", .mk (.int 7) 1, 1⟩], 1⟩], 3⟩ := by
+  refine parse_text _ [⟨.id, .str "A", 1⟩, ⟨.equal, .none, 1⟩, ⟨.id, .str "B", 1⟩, ⟨.lparen, .none, 1⟩, ⟨.id, .str "x", 1⟩, ⟨.equal, .none, 1⟩,
+    ⟨.int, .int 7, 1⟩, ⟨.rparen, .none, 1⟩] _ ?_ ?_
+  · refine Text.tok [] ['A'] _ 0 1 _ _ _ _ Gap.nil (spells_ident 'A' [] (by decide) (by simp)) (stopsAt_cons (by decide)) ?_
+    refine Text.tok [] ['='] _ 0 1 _ _ _ _ Gap.nil (spells_punct '=' .equal (by decide)) trivial ?_
+    refine Text.tok [] ['B'] _ 0 1 _ _ _ _ Gap.nil (spells_ident 'B' [] (by decide) (by simp)) (stopsAt_cons (by decide)) ?_
+    refine Text.tok [] ['('] _ 0 1 _ _ _ _ Gap.nil (spells_punct '(' .lparen (by decide)) trivial ?_
+    refine Text.tok [] ['x'] _ 0 1 _ _ _ _ Gap.nil (spells_ident 'x' [] (by decide) (by simp)) (stopsAt_cons (by decide)) ?_
+    refine Text.tok [] ['='] _ 0 1 _ _ _ _ Gap.nil (spells_punct '=' .equal (by decide)) trivial ?_
+    refine Text.tok [] ['7'] _ 0 1 _ _ _ _ Gap.nil (spells_int false ['7'] (by simp) (by decide)) (stopsAt_cons (by decide)) ?_
+    refine Text.tok [] [')'] _ 0 1 _ _ _ _ Gap.nil (spells_punct ')' .rparen (by decide)) trivial ?_
+    exact Text.done ['\n'] 1 1 (Gap.lf [] 0 Gap.nil)
+  · exact RProg.one _ _ (RCmd.args "A" "B" 1 1 1 1 1 _ _ (RArgs.one _ _ (RArg.mk "x" 1 1 _ _ (RVal.int 7 1))))
 
 end MPilot.C10
